@@ -81,7 +81,7 @@ def run_case(case_id: int, ops_override=None, target_override=None):
                         planned.append({'op': 'add', 'h': rng.randrange(nh), 'c': c_, 'via': rng.choice(['bytes', 'stream'])})
                     per_pack = rng.random() < 0.5
                     if nh > 1 and rng.random() < 0.35:
-                        planned.append({'op': rng.choice(['lazylist', 'lazymeta']), 'h': rng.randrange(1, nh), 'k': 0})
+                        planned.append({'op': rng.choice(['lazylist', 'lazymeta']), 'h': rng.randrange(1, nh), 'k': 0, 'fresh': rng.random() < 0.5})
                     planned.append({'op': 'pack', 'mode': rng.choice(['no', 'yes', 'auto', 'keep']), 'clean': per_pack})
                     if not per_pack or rng.random() < 0.5:
                         planned.append({'op': 'clean'})
@@ -122,6 +122,8 @@ def run_case(case_id: int, ops_override=None, target_override=None):
                     hd = handles[op['h']]
                     before = set(acked)
                     req = [key(x) for x in range(len(pool))]
+                    if op.get('fresh'):
+                        hd.close()  # the handle has no session at all when the query starts (closed handles reopen on demand)
                     gen_ = hd.list_all_objects() if kind == 'lazylist' else hd.get_objects_meta(req, skip_if_missing=False)
                     got_items = []
                     first_ = next(gen_, None)
